@@ -214,6 +214,12 @@ func (f *fsm) dialPeer() {
 	f.cancelDialFn = cancel
 	go func() {
 		defer close(f.dialResultCh)
+		if verifDial != nil {
+			conn, err := verifDial(ctx, f.peer.options.localAddress,
+				f.peer.config.RemoteAddress, f.peer.options.port)
+			dialResultCh <- &dialResult{conn: conn, err: err}
+			return
+		}
 		var (
 			laddr net.Addr
 			err   error
